@@ -87,8 +87,68 @@ fn product_shapes(ns: &[usize]) -> Vec<TxP> {
     v
 }
 
+/// Transactions and blocks whose hashes and fields carry particular byte patterns (found by grinding lock time / nonce):
+/// txids that begin or end with zero bytes, with 0xff, with the bytes of ';', '"', ',' and line feed; previous-output hashes of
+/// all zero / all 0xff / a single non-zero byte; values 0, 1, equal, powers of two, top bit set; block hashes with two
+/// zero bytes at either end (real block hashes are displayed with many leading zeros).
+fn ground_chain(coin: &'static Coin) -> ChainBuilder {
+    let mut cb = ChainBuilder::with_genesis(coin);
+    let grind_tx = |mut tx: Tx, pred: &dyn Fn(&[u8; 32]) -> bool| -> Tx {
+        for lt in 0..2_000_000u32 {
+            tx.locktime = lt;
+            if pred(&tx.txid()) {
+                return tx;
+            }
+        }
+        tx
+    };
+    let mk = |k: u8, prev: [u8; 32], idx: u32, values: Vec<u64>| Tx { version: 1, segwit: false, inputs: vec![TxIn { prev_txid: prev, prev_index: idx, script_sig: vec![0x51; 2], sequence: 0x8000_0000 | k as u32, witness: vec![] }], outputs: values.into_iter().enumerate().map(|(i, v)| TxOut { value: v, script: script::p2pkh(&script::h20(k.wrapping_mul(7).wrapping_add(i as u8))) }).collect(), locktime: 0 };
+    let mut one = [0u8; 32];
+    one[31] = 1;
+    let mut txs = vec![coinbase(1, 1, vec![pay(9, 50 * COIN_VALUE)])];
+    let preds: Vec<Box<dyn Fn(&[u8; 32]) -> bool>> = vec![
+        Box::new(|h| h[0] == 0),
+        Box::new(|h| h[31] == 0),
+        Box::new(|h| h[0] == 0 && h[1] == 0),
+        Box::new(|h| h[31] == 0 && h[30] == 0),
+        Box::new(|h| h[0] == 0xff),
+        Box::new(|h| h[31] == 0xff),
+        Box::new(|h| h[31] == b';'),
+        Box::new(|h| h[31] == b'\n'),
+        Box::new(|h| h[0] == b'"' && h[31] == b','),
+        Box::new(|h| h[31] < 0x10 && h[30] < 0x10),
+    ];
+    let prevs = [[0u8; 32], [0xff; 32], one, [0x0a; 32], [0x3b; 32]];
+    let values: Vec<Vec<u64>> = vec![vec![0, 0], vec![1, 1], vec![1 << 63, 1 << 63], vec![u64::MAX, 0], vec![1 << 32, (1 << 32) - 1], vec![10, 100, 1000], vec![0x8000_0000, 0x7fff_ffff], vec![COIN_VALUE, COIN_VALUE], vec![1 << 53, (1 << 53) + 1], vec![0x3b, 0x0a]];
+    for (k, pred) in preds.iter().enumerate() {
+        let tx = grind_tx(mk(k as u8, prevs[k % prevs.len()], if k % 2 == 0 { 0 } else { 0xffff_ffff }, values[k].clone()), pred.as_ref());
+        txs.push(tx);
+    }
+    let grind_block = |cb: &ChainBuilder, txs: Vec<Tx>, pred: &dyn Fn(&[u8; 32]) -> bool| -> Block {
+        let prev = cb.tip_hash();
+        let mut b = Block::build(1, prev, 0x8000_0000, 0x1d00ffff, 0, txs);
+        for nonce in 0..4_000_000u32 {
+            b.header.nonce = nonce;
+            if pred(&b.hash()) {
+                break;
+            }
+        }
+        b
+    };
+    let b1 = grind_block(&cb, txs, &|h| h[31] == 0 && h[30] == 0);
+    cb.blocks.push(b1);
+    let b2 = grind_block(&cb, vec![coinbase(2, 2, vec![pay(9, 0)])], &|h| h[0] == 0 && h[1] == 0);
+    cb.blocks.push(b2);
+    let b3 = grind_block(&cb, vec![coinbase(3, 3, vec![pay(9, 1)])], &|h| h[31] == 0xff);
+    cb.blocks.push(b3);
+    cb
+}
+
 fn build_chain(c: &Case, coin: &'static Coin) -> (ChainBuilder, Option<u64>) {
     // returns chain and --start (noteblockchain/verify needs start 1)
+    if c.label == "ground-patterns" {
+        return (ground_chain(coin), if c.verify && genesis(coin).is_none() { Some(1) } else { None });
+    }
     let mut cb = ChainBuilder::with_genesis(coin);
     for h in 1..c.n_blocks {
         if h == 1 {
@@ -247,7 +307,12 @@ pub fn run() -> Report {
         p.value = val;
         cases.push(Case { coin: "bitcoin", verify: true, txs: vec![p], hdr: None, n_blocks: 3, label: format!("value={:#x}", val) });
     }
-    rep.rule = "product of the core tx-shape alphabet (segwit x n_in x n_out x |scriptSig| x |scriptPubKey| x witness-stack shape) as 2nd tx of the middle block, ordered shape pairs in one block, one-dimension CompactSize boundary sweeps (0xfc,0xfd,0xfe,0xffff,0x10000) for 7 count/length dimensions, u32/u64 field value sweeps; x coins x --verify; non-trivial = distinct case whose run wrote at least 2 block rows".into();
+    for coin in ["bitcoin", "litecoin", "dogecoin"] {
+        for verify in [false, true] {
+            cases.push(Case { coin, verify, txs: vec![], hdr: None, n_blocks: 4, label: "ground-patterns".into() });
+        }
+    }
+    rep.rule = "product of the core tx-shape alphabet (segwit x n_in x n_out x |scriptSig| x |scriptPubKey| x witness-stack shape) as 2nd tx of the middle block, ordered shape pairs in one block, one-dimension CompactSize boundary sweeps (0xfc,0xfd,0xfe,0xffff,0x10000) for 7 count/length dimensions, u32/u64 field value sweeps; a chain of ground byte patterns (txids / block hashes beginning or ending with 00, 0000, ff, the bytes of ; \" , and line feed, previous-output hashes of all 00 / ff, values 0, 1, equal, 2^63, 2^64-1, top-bit-set sequence numbers and block time); x coins x --verify; non-trivial = distinct case whose run wrote at least 2 block rows".into();
     rep.bound = json!({"cases": cases.len(), "product_coins": prod_coins, "blocks": "2..4", "max_count": "0x10000", "max_item_bytes": 2621440});
     rep.not_covered = vec!["counts >= 2^32 (9-byte CompactSize)".into(), "non-canonical CompactSize encodings (consensus-invalid, excluded by design)".into(), "tx/block versions >= 2^31".into()];
     let root = refmodel::world::scratch_root();
